@@ -440,8 +440,8 @@ def c_constraint_mode(c, place, toggles, how="plain"):
            "vsc.model.rand_info_builder.RandInfoBuilder.visit_composite_field", "vsc.model.expr_indexed_field_ref_model.ExprIndexedFieldRefModel.build",
            "vsc.types.list_t.append"],
           lambda tier, seed: [(d,) for d in ("siblings", "nonrand_sub", "depth3", "obj_list", "shared_class")], kind="bounded",
-          bound="object trees of depth <= 3, two sub-objects of one class, a non-random sub-object, a list of 3 objects; cross-level "
-                "constraints pinned to distinct values per path")
+          bound="object trees of depth <= 3, two sub-objects of one class, a non-random sub-object, a list of 3 objects (repeated calls, refilled by clear+append, element "
+                "assignment and whole-list assignment); cross-level constraints pinned to distinct values per path")
 def c_hierarchy(c, shape):
     import vsc
 
@@ -531,10 +531,24 @@ def c_hierarchy(c, shape):
                 self.items[2].x == 9
                 self.items[1].x > self.items[2].x
         o = P()
-        o.randomize()
-        got = [_vals(s, "xy") for s in o.items]
-        c.check("C08: list[i].field denotes the field of exactly element i; each element's own block holds",
-                got[0] == (7, 8) and got[2] == (9, 10) and got[1][0] > 9 and got[1][1] == (got[1][0] + 1) % 64, info=repr(got))
+
+        def observe(tag):
+            o.randomize()
+            got = [_vals(s, "xy") for s in o.items]
+            c.check("C08: list[i].field denotes the field of exactly the element that is at index i at the time of the call; "
+                    "each element's own block holds", len(got) == 3 and got[0] == (7, 8) and got[2] == (9, 10) and got[1][0] > 9
+                    and got[1][1] == (got[1][0] + 1) % 64, info="%s %r" % (tag, got))
+        observe("first call")
+        observe("second call")
+        o.items.clear()
+        for _ in range(3):
+            o.items.append(Sub())
+        observe("after clear + append")
+        observe("after clear + append, again")
+        o.items[2] = Sub()
+        observe("after assigning element 2")
+        o.items = [Sub(), Sub(), Sub()]
+        observe("after assigning the whole list")
     else:
         @vsc.randobj
         class A(object):
